@@ -696,29 +696,40 @@ def _capacity_rows(res, ctx, arms):
                     break
             _no_other(row, I, allowed=("RESERVE",))
             row.done()
-    for p in (RAW + "shrink_to_fit", RAW + "shrink_to"):
-        for tt, I in arms(p):
-            row = Row(res, ctx, p.split("::")[-1], p, tt, I)
-            L0 = as_poly(entry_len(I, I.g.entry, (("P", 1), ("len",))))
-            rs = I.all_effects(("RESERVE",))
-            if len(rs) != 1 or rs[0]["how"] != "resize":
-                row.fail("expected one resize call")
-                row.done()
-                continue
-            r = rs[0]
-            n = as_poly(r["n"])
-            cap = as_poly(r["cap"])
-            if p.endswith("shrink_to_fit"):
-                row.expect_eq("new capacity", n, L0, r, "amount")
-            else:
-                m = Poly.atom(("param", 2))
-                a, b = sorted([L0, m], key=repr)
-                row.expect_eq("new capacity", n, Poly.atom(("max", a, b)), r, "amount")
+    p = RAW + "shrink_to_fit"
+    for tt, I in arms(p):
+        row = Row(res, ctx, "shrink_to_fit", p, tt, I)
+        L0 = as_poly(entry_len(I, I.g.entry, (("P", 1), ("len",))))
+        rs = I.all_effects(("RESERVE",))
+        if len(rs) != 1 or rs[0]["how"] != "resize":
+            row.fail("expected one resize call")
+        else:
+            row.expect_eq("new capacity", as_poly(rs[0]["n"]), L0, rs[0], "amount")
+        _no_other(row, I, allowed=("RESERVE",))
+        row.done()
+    # shrink_to: decided per case (min_capacity > LEN / min_capacity <= LEN), so `max` may be spelled any way
+    p = RAW + "shrink_to"
+    for tt0, I0 in arms(p)[:1]:
+        L0 = as_poly(entry_len(I0, I0.g.entry, (("P", 1), ("len",))))
+        m = Poly.atom(("param", 2))
+        for case, ef, want in (("min_capacity > len", [("ge0", m - L0 - ONE)], m), ("min_capacity <= len", [("ge0", L0 - m)], L0)):
+            for tt, I in ctx.arms(p, entry_facts=ef) or []:
+                row = Row(res, ctx, "shrink_to", p, tt, I)
+                rs = I.all_effects(("RESERVE",))
+                if len(rs) != 1 or rs[0]["how"] != "resize":
+                    row.fail("expected one resize call (case %s)" % case)
+                    row.done()
+                    continue
+                r = rs[0]
+                n = as_poly(r["n"])
+                cap = as_poly(r["cap"])
+                if n != want:
+                    row.fail("new capacity is %s when %s, the Vec model requires max(LEN, min_capacity) = %s" % (n, case, want), r, "amount")
                 # never grow: resize only under n < CAP (or n <= CAP)
                 if not (implies(r["facts"], cmp_fact("Le", n, cap))):
                     row.fail("resize(max(LEN, min_capacity)) is not guarded by the current capacity: shrink_to may grow the vector", r, "never-grow")
-            _no_other(row, I, allowed=("RESERVE",))
-            row.done()
+                _no_other(row, I, allowed=("RESERVE",))
+                row.done()
 
 
 def _clone_row(res, ctx, arms):
@@ -856,18 +867,25 @@ def _backend_growth_rows(res, ctx, arms):
             if len(ent) != 1:
                 row.fail("expand must resize exactly once")
             else:
-                n = as_poly(ent[0]["args"][1])
-                ats = [a for a in n.atoms() if isinstance(a, tuple) and a[0] == "max"]
-                if n != Poly.atom(ats[0]) if ats else True:
-                    row.fail("new size is %s, expected max(2 x size, size + additional)" % n, ent[0])
-                else:
-                    ops = [ats[0][1], ats[0][2]]
-                    if size + add not in ops:
-                        row.fail("the requested size (size + additional) is not a lower bound of the new size %s" % n, ent[0], "request")
-                    other = [o for o in ops if o != size + add]
-                    dbl = other and (other[0] == size * Poly.const(2) or any(isinstance(a, tuple) and a[0] == "saturating_mul" for a in other[0].atoms()))
-                    if not dbl:
-                        row.fail("growth is not geometric: the doubling term is missing from %s (reallocations would be linear in the number of pushes)" % n, ent[0], "doubling")
+                # decided per case: with D the doubling term (2 x size, saturating or plain) and R = size + additional,
+                # the new size must be R when R > D and D when R <= D - however `max` is spelled
+                R = size + add
+                verdicts = []
+                for D in (Poly.atom(("saturating_mul", size, Poly.const(2))), size * Poly.const(2)):
+                    got = {}
+                    for case, ef, want in (("R>D", [("ge0", R - D - ONE)], R), ("R<=D", [("ge0", D - R)], D)):
+                        for tt2, I2 in ctx.arms(p, entry_facts=ef) or []:
+                            e2 = [e for e in I2.all_effects(("ENTER",)) if e["callee"].endswith("::resize")]
+                            got[case] = (as_poly(e2[0]["args"][1]) if len(e2) == 1 else None, want)
+                    verdicts.append(got)
+                if not any(all(g == w for g, w in v.values()) and len(v) == 2 for v in verdicts):
+                    v = verdicts[0]
+                    gR, gD = v.get("R>D", (None, None))[0], v.get("R<=D", (None, None))[0]
+                    if gR != R:
+                        row.fail("the requested size (size + additional) is not the new size when it exceeds twice the current size (got %s)" % gR, ent[0], "request")
+                    if not any(vv.get("R<=D", (None, 0))[0] == vv.get("R<=D", (0, None))[1] for vv in verdicts):
+                        row.fail("growth is not geometric: when size + additional <= 2 x size the new size is %s, expected 2 x size "
+                                 "(reallocations would be linear in the number of pushes)" % gD, ent[0], "doubling")
             row.done()
     # default expand_exact -> resize(size + additional)
     p = "mem::MemResizable::expand_exact"
